@@ -4,6 +4,7 @@ import os
 
 from common import VERIF
 import corr_play
+import real_play
 import families
 import framework
 import oracles
@@ -65,6 +66,8 @@ def run_c02(rep):
                          oracle_names=["oracle_c02", "oracle_c07"], known_classes=known_classes("C02") | known_classes("C07"), label="c02-params")
     compile_tie(rep, "c02-compile", dict(one_time=0.6, block_choices=0.7, join=0.5, conds=0.8))
     c02_sessions(rep)
+    import fam_fault
+    fam_fault.exotic_failures(rep, "C02")      # "a condition that cannot be evaluated hides the choice", whatever it raises
 
 
 C02_SESSIONS = [
@@ -207,6 +210,61 @@ def run_c09(rep):
                          weights=dict(choose=62, goto=6, undo=8, redo=5, save=2, load=2, fresh=2, read=8, bad=3),
                          oracle_names=["oracle_c09"], known_classes=known_classes("C09"), label="c09")
     compile_tie(rep, "c09-compile", dict(hooks=0.95, join=0.5, conds=0.7))
+    c09_sessions(rep, sizes(rep, 30, 400))
+
+
+C09_STORY = (":: Start\n~ ticks = 0\n~ silent = 0\n@hook turn_end Status\n@hook turn_end Quiet\nBegin\n+ [status] -> Status\n+ [walk] -> Road\n\n"
+             ":: Road\nroad\n+ [status] -> Status\n+ [walk] -> Road\n+ [quiet] -> Quiet\n\n"
+             ":: Status\n~ ticks = ticks + 1\nStatus {ticks}\n+ [back] -> Road\n+ [rest] -> @join\n    resting\n@join\nafter\n+ [back] -> Road\n+ [again] -> Status\n\n"
+             # a hooked passage that shows nothing and whose only block holds hook lines (it unhooks itself after three runs)
+             ":: Quiet\n~ silent = silent + 1\n@if silent >= 3:\n  @unhook turn_end Quiet\n@endif\n+ [back] -> Road\n")
+
+
+def c09_sessions(rep, n_walks):
+    """a hooked passage that is also a place the player walks into, and a silent one that unhooks itself from inside a block:
+    after every successful choice each registered passage ran exactly once as a hook (on top of the entry the choice itself made)"""
+    from common import rng_for as _rng
+    n = 0
+    story = corr_play.compile_source(C09_STORY)
+    for w in range(n_walks):
+        r = _rng(rep.seed, "c09-session", w)
+        rp = real_play.RealPlay(story)
+        st0, init = rp.start()
+        if st0 != "ok":
+            rep.violations.append({"cls": None, "family": "c09-sessions", "what": f"session does not start: {init}", "source": C09_STORY})
+            return
+        prev, ops = init, []
+        for _ in range(r.randint(3, 14)):
+            k = len(prev["out"]["choices"]) if prev.get("out") else 0
+            if k == 0:
+                break
+            op = {"op": "choose", "i": r.randrange(k)}
+            ops.append(op)
+            step = rp.op(op)
+            st = step["state"]
+            if "out" not in step["resp"]:
+                rep.violations.append({"cls": None, "family": "c09-sessions", "what": f"choice raised: {str(step['resp'])[:160]}", "source": C09_STORY, "ops": ops})
+                break
+            ch = prev["out"]["choices"][op["i"]]
+            reg = prev["hooks"].get("turn_end", [])
+            for var, pid in (("ticks", "Status"), ("silent", "Quiet")):
+                entry = 1 if ch["target"] == pid else 0
+                # (entering Quiet for the third time unhooks it during the navigation itself, before the hooks of the turn run)
+                gone = pid == "Quiet" and entry and prev["vars"]["silent"] + 1 >= 3
+                want = entry + (1 if pid in reg and not gone else 0)
+                got = st["vars"][var] - prev["vars"][var]
+                if got != want:
+                    rep.violations.append({"cls": None, "family": "c09-sessions", "source": C09_STORY, "ops": list(ops), "variant": "main",
+                                           "what": (f"choice '{ch['text']}' -> {ch['target']} with {reg} hooked to turn_end: {pid} ran {got} time(s), expected {want} "
+                                                    f"({'one entry by the choice plus ' if ch['target'] == pid else ''}{'one run as a hook' if pid in reg else 'no hook run: it is not registered'})")})
+            want_reg = [h for h in reg if not (h == "Quiet" and st["vars"]["silent"] >= 3)]
+            if st["hooks"].get("turn_end", []) != want_reg:
+                rep.violations.append({"cls": None, "family": "c09-sessions", "source": C09_STORY, "ops": list(ops), "variant": "main",
+                                       "what": f"after the turn the registrations are {st['hooks'].get('turn_end')}, expected {want_reg} (Quiet unhooks itself from its third run on)"})
+            prev = st
+        n += 1
+    rep.coverage.setdefault("families", {})["c09-sessions"] = {"walks": n}
+    rep.coverage["evaluations"] = rep.coverage.get("evaluations", 0) + n
 
 
 C10_SESSIONS = [
@@ -300,6 +358,7 @@ def run_c15(rep):
     n, ops, per = sizes(rep, (120, 12, 6), (1500, 30, 12))
     fam_fault.fault_family(rep, n, ops, per, known_classes=known_classes("C15"))
     fam_fault.failed_choice_invisible(rep)
+    fam_fault.exotic_failures(rep, "C15")
     # model tie + undo-after-fault on stories that fail at random points
     n2, ops2 = sizes(rep, (300, 14), (4000, 40))
     families.play_family(rep, n2, ops2, features=dict(faults=0.3, stmt_faults=0.25, hooks=0.4, params=0.5, loops=0.5),
